@@ -67,7 +67,7 @@ theorem convert_world (w : World) (hw : WFW w) (h : Nat) (a : Acc) (ha : w.acc h
       have hl := (hw.handles h' a'' ha'').live
       rw [ef] at hl
       have := (P.others a''.slot hl (hother_slot h' a'' hne ha'' ef)).1
-      rw [this]; exact ⟨rfl, rfl, Iff.rfl⟩
+      rw [this]; exact ⟨rfl, rfl, id⟩
   refine ⟨hww, hacc, hfile, ?_⟩
   have := abs_update hw a.file hfi f' P.wfe.toWFF h a' rfl ((w.file a.file).keyOf a.slot)
     (some (some (((w.file a.file).slotBytes a.slot).getD []))) P.present
@@ -132,8 +132,8 @@ theorem same_update_ok (w : World) (hw : WFW w) (op : Op) (h : Nat) (a a' : Acc)
   have hfi := file_lt_of_live w a.file a.slot hh.live
   refine ⟨?_, abs w, hspec, ?_⟩
   · apply hw.update a.file hfi (w.file a.file) (hw.files a.file) (hw.coh a.file) h a' e1
-    · rw [e2, e4, e5, e6.1, e6.2]; exact ⟨hh.live, hh.user, hh.special_iff, hh.new_iff, hh.special_new, hh.blk⟩
-    · intro _ _ _ _ _; exact ⟨rfl, rfl, Iff.rfl⟩
+    · rw [e2, e4, e5, e6.1, e6.2]; exact ⟨hh.live, hh.user, hh.special_iff, hh.new_of_none, hh.special_new, hh.blk⟩
+    · intro _ _ _ _ _; exact ⟨rfl, rfl, id⟩
   · refine ⟨?_, ?_, ?_⟩
     · intro j
       show (w.file j).present = (((w.setFile a.file (w.file a.file)).setAcc h a').file j).present
@@ -253,10 +253,10 @@ theorem specWrite_zeros (m p : Nat) (bs : Bytes) (h : m ≤ p + bs.length) : spe
   · simp [zeros, List.getD_eq_getElem?_getD, List.getElem?_replicate]
     split <;> rfl
 
-/-- `Hsetlength` on the only access id of an element without data: the element becomes `length` reserved bytes
-    (zeros: the space lies at the end of the file) -/
+/-- `Hsetlength` through one of the access ids of an element without data: the element becomes `length` reserved bytes
+    (zeros: the space lies at the end of the file); other ids on it keep a stale "new" flag until they are next used -/
 theorem setLength_world (w : World) (hw : WFW w) (h : Nat) (a : Acc) (ha : w.acc h = some a) (hsp : a.special = false)
-    (hnew : a.newElem = true) (halone : Alone w h) (n : Nat) (app : Bool) :
+    (hx : ((w.file a.file).dd a.slot).ext = none) (n : Nat) (app : Bool) :
     let f1 := ((w.file a.file).setLength a.slot n).1
     let a1 : Acc := { a with newElem := false, appendable := app }
     let w1 := (w.setFile a.file f1).setAcc h a1
@@ -269,7 +269,6 @@ theorem setLength_world (w : World) (hw : WFW w) (h : Nat) (a : Acc) (ha : w.acc
   have hsp' : isSpecial ((w.file a.file).dd a.slot).tag = false := by rw [← hh.special_iff]; exact hsp
   have hfi := file_lt_of_live w a.file a.slot hh.live
   have hE := hw.files a.file
-  have hx : ((w.file a.file).dd a.slot).ext = none := (hh.new_iff hsp).mp hnew
   have hslt := live_lt _ _ hh.live
   have S := setLength_spec (w.file a.file) a.slot n hslt hE.tail0
   have W1 := S.wff hE.toWFF hh.live hx
@@ -289,19 +288,20 @@ theorem setLength_world (w : World) (hw : WFW w) (h : Nat) (a : Acc) (ha : w.acc
   have hd1 : f1.dd a.slot = { (w.file a.file).dd a.slot with ext := some ((w.file a.file).endOff, n) } := by
     show (((w.file a.file).setLength a.slot n).1).dd a.slot = _; rw [S.dd_new, S.off_eq]
   have hkey1 : f1.keyOf a.slot = (w.file a.file).keyOf a.slot := by unfold File.keyOf; rw [hd1]
-  have hother_slot : ∀ h' a'', h' ≠ h → w.acc h' = some a'' → a''.file = a.file → a''.slot ≠ a.slot := by
-    intro h' a'' hne ha'' ef es
-    exact hne (halone a ha h' a'' ha'' ef es)
+  have hdd1 : ∀ x, (f1.dd x).tag = ((w.file a.file).dd x).tag ∧ (f1.dd x).ref = ((w.file a.file).dd x).ref ∧
+      ((f1.dd x).ext = none → ((w.file a.file).dd x).ext = none) := by
+    intro x
+    by_cases e : x = a.slot
+    · rw [e, hd1]; exact ⟨rfl, rfl, fun c => by cases c⟩
+    · have : f1.dd x = (w.file a.file).dd x := S.dd_keep x e
+      rw [this]; exact ⟨rfl, rfl, id⟩
   have hww : WFW w1 := by
     apply hw.update a.file hfi f1 E1 hC h a1 rfl
     · refine ⟨(hlive1 a.slot).mpr hh.live, by rw [hkey1]; exact hh.user, ?_, ?_, fun _ => rfl, hh.blk⟩
       · show a.special = _; rw [hd1]; exact hh.special_iff
-      · intro _; show false = true ↔ _; rw [hd1]; simp
-    · intro h' a'' hne ha'' ef
-      have := S.dd_keep a''.slot (hother_slot h' a'' hne ha'' ef)
-      show (f1.dd a''.slot).tag = _ ∧ _
-      show ((((w.file a.file).setLength a.slot n).1).dd a''.slot).tag = _ ∧ _
-      rw [this]; exact ⟨rfl, rfl, Iff.rfl⟩
+      · intro _ c; exfalso; have : (f1.dd a.slot).ext = none := c; rw [hd1] at this; cases this
+    · intro h' a'' _ _ _
+      exact hdd1 a''.slot
   refine ⟨hww, hacc, hfile, by rw [hd1], S.end_eq, ?_⟩
   have := abs_update hw a.file hfi f1 W1 h a1 rfl ((w.file a.file).keyOf a.slot) (some (some (zeros n))) S.present
     (by
@@ -331,8 +331,9 @@ theorem setLength_world (w : World) (hw : WFW w) (h : Nat) (a : Acc) (ha : w.acc
         have hjs : j ≠ a.slot := fun e => hne ((keyOf_of_hasKey hu' (e ▸ hk)).symm)
         exact hfr1 j hk.1 hjs)
     (by
-      intro h' a'' hne ha'' ef
-      exact keyOf_eq (S.dd_keep a''.slot (hother_slot h' a'' hne ha'' ef)))
+      intro h' a'' _ _ _
+      unfold File.keyOf
+      rw [(hdd1 a''.slot).1, (hdd1 a''.slot).2.1])
   rw [hkey1] at this
   exact this
 
@@ -341,31 +342,32 @@ end H4.Elem
 namespace H4.Elem
 open H4.Gen.Hdf
 
-/-- **`Hwrite`** (all four ways the C can carry it out: linked blocks, first write of an element, in place / extended in
-    place at the end of the file, silent promotion) is `specWrite` on the element's byte string -/
-theorem stepOK_write (w : World) (hw : WFW w) (h : Nat) (bs : Bytes) (hsafe : OpSafe w (.write h bs)) :
-    StepOK w (.write h bs) := by
-  obtain ⟨hbs, hprom_alone, hnew_alone⟩ := hsafe
+/-- **`Hwrite`** after `HIrefresh_new` (all four ways the C can carry it out: linked blocks, first write of an element, in
+    place / extended in place at the end of the file, silent promotion) is `specWrite` on the element's byte string -/
+theorem stepOKC_write (w : World) (hw : WFW w) (h : Nat) (bs : Bytes) (hbs : bs ≠ [])
+    (hprom_alone : ∀ a, w.acc h = some a → a.special = false → a.newElem = false → a.appendable = true →
+      (bs.length : Int) + a.posn > ddLen ((w.file a.file).dd a.slot) → NotLast w a → Alone w h)
+    (hfresh : Fresh w h) : StepOKC w (.write h bs) := by
   cases ha : w.acc h with
-  | none => exact stepOK_fail_same w hw _ (by simp [step, hwrite, ha])
+  | none => exact stepOKC_fail_same w hw _ (by simp [stepC, hwriteCore, ha])
   | some a =>
-    have hstep : step w (.write h bs) =
+    have hstep : stepC w (.write h bs) =
         if a.canWrite = false then (w, .fail)
         else if a.special = true then hwriteLinked w h a (w.file a.file) bs
         else if a.newElem = true then
           hwritePlain w h { a with newElem := false, appendable := true } ((w.file a.file).setLength a.slot bs.length).1 bs
         else hwritePlain w h a (w.file a.file) bs := by
-      simp only [step, hwrite, ha]
+      simp only [stepC, hwriteCore, ha]
     by_cases hcw : a.canWrite = false
-    · exact stepOK_fail_same w hw _ (by rw [hstep, if_pos hcw])
+    · exact stepOKC_fail_same w hw _ (by rw [hstep, if_pos hcw])
     by_cases hsp : a.special = true
-    · unfold StepOK; rw [hstep, if_neg hcw, if_pos hsp]
+    · unfold StepOKC; rw [hstep, if_neg hcw, if_pos hsp]
       exact (hwriteLinked_ok w hw h bs hbs a ha hsp).1
     have hsp0 : a.special = false := by simpa using hsp
     by_cases hnew : a.newElem = true
     · -- first write of an element: Hsetlength(|bs|), then the write
-      unfold StepOK; rw [hstep, if_neg hcw, if_neg hsp, if_pos hnew]
-      obtain ⟨hw1, hacc1, hfile1, hext1, hend1, heqv1⟩ := setLength_world w hw h a ha hsp0 hnew (hnew_alone a ha hnew) bs.length true
+      unfold StepOKC; rw [hstep, if_neg hcw, if_neg hsp, if_pos hnew]
+      obtain ⟨hw1, hacc1, hfile1, hext1, hend1, heqv1⟩ := setLength_world w hw h a ha hsp0 (hfresh a ha hnew hsp0) bs.length true
       generalize hf1 : ((w.file a.file).setLength a.slot bs.length).1 = f1 at hw1 hacc1 hfile1 hext1 hend1 heqv1 ⊢
       generalize ha1 : ({ a with newElem := false, appendable := true } : Acc) = a1 at hw1 hacc1 hfile1 heqv1 ⊢
       have ha1f : a1.file = a.file := by rw [← ha1]
@@ -387,7 +389,7 @@ theorem stepOK_write (w : World) (hw : WFW w) (h : Nat) (bs : Bytes) (hsafe : Op
       -- the result is a successful write (the element is appendable and at the end of the file)
       have hh := hw.handles h a ha
       have hu := hh.user
-      have hx : ((w.file a.file).dd a.slot).ext = none := (hh.new_iff hsp0).mp hnew
+      have hx : ((w.file a.file).dd a.slot).ext = none := hfresh a ha hnew hsp0
       have hsp' : isSpecial ((w.file a.file).dd a.slot).tag = false := by rw [← hh.special_iff]; exact hsp0
       have he := handle_elem w hw h a ha
       rw [slotBytes_plain _ _ hsp', hx] at he
@@ -434,12 +436,53 @@ theorem stepOK_write (w : World) (hw : WFW w) (h : Nat) (bs : Bytes) (hsafe : Op
       | data _ _ => rw [hr] at hs1; simp [specStep] at hs1
       | info _ _ _ _ => rw [hr] at hs1; simp [specStep] at hs1
       | crash => rw [hr] at hs1; simp [specStep] at hs1
-    · unfold StepOK; rw [hstep, if_neg hcw, if_neg hsp, if_neg hnew]
+    · unfold StepOKC; rw [hstep, if_neg hcw, if_neg hsp, if_neg hnew]
       have hnew0 : a.newElem = false := by simpa using hnew
       by_cases hprom : a.appendable = true ∧ (bs.length : Int) + a.posn > ddLen ((w.file a.file).dd a.slot) ∧
           ddLen ((w.file a.file).dd a.slot) + ddOff ((w.file a.file).dd a.slot) ≠ (w.file a.file).endOff
       · exact hwritePlain_promote_ok w hw h bs hbs a ha hsp0 hprom
           (fun _ => hprom_alone a ha hsp0 hnew0 hprom.1 hprom.2.1 hprom.2.2)
       · exact hwritePlain_ok w hw h bs hbs a ha hsp0 hnew0 hprom
+
+
+/-- **`Hwrite`**: argument check, `HIrefresh_new`, then the write proper -/
+theorem stepOK_write (w : World) (hw : WFW w) (h : Nat) (bs : Bytes) (hsafe : OpSafe w (.write h bs)) :
+    StepOK w (.write h bs) := by
+  obtain ⟨hbs, hprom⟩ := hsafe
+  have hdec : w.acc h = none ∨ ∃ a, w.acc h = some a := by cases w.acc h <;> simp
+  rcases hdec with ha | ⟨a, ha⟩
+  · exact stepOK_fail_same w hw _ (by simp [step, hwrite, ha])
+  by_cases hcw : a.canWrite = false
+  · exact stepOK_fail_same w hw _ (by simp [step, hwrite, ha, hcw])
+  obtain ⟨hw', _, hfr, hfile, hacc, hoth⟩ := refresh_spec w hw h
+  apply stepOK_of_core w hw h (.write h bs) (by simp only [step, stepC, hwrite, ha]; rw [if_neg hcw])
+  apply stepOKC_write _ hw' h bs hbs _ hfr
+  intro a' ha' hsp' hne' happ' hlen' hnl'
+  rw [hacc a ha] at ha'
+  simp only [Option.some.injEq] at ha'
+  obtain ⟨r1, r2, r3, r4, r5, _, _, _, _, _⟩ := refresh_fields a (w.file a.file)
+  subst ha'
+  rw [r1, r2, hfile] at hlen'
+  rw [r3] at hlen'
+  have hnl : NotLast w a := by
+    unfold NotLast at hnl' ⊢
+    rw [r1, r2, hfile] at hnl'; exact hnl'
+  have hxne : ((w.file a.file).dd a.slot).ext ≠ none := by
+    intro c
+    have h1 := (hw.handles h a ha).new_of_none (by rw [← r4]; exact hsp') c
+    have h2 : (a.refresh (w.file a.file)).newElem = true := by
+      unfold Acc.refresh; rw [if_neg (fun cc => cc.2.2 c)]; exact h1
+    rw [hne'] at h2; exact absurd h2 (by decide)
+  have hal := hprom a ha (by rw [← r4]; exact hsp') hxne (by rw [← r5]; exact happ') hlen' hnl
+  -- `Alone` does not depend on the flag
+  intro a0 ha0 h' a1 ha1 ef es
+  rw [hacc a ha] at ha0
+  simp only [Option.some.injEq] at ha0
+  subst ha0
+  rw [r1] at ef; rw [r2] at es
+  by_cases e : h' = h
+  · exact e
+  · rw [hoth h' e] at ha1
+    exact hal a ha h' a1 ha1 ef es
 
 end H4.Elem
